@@ -954,10 +954,16 @@ def np_vstack(eng, st, args, kw, node):
     t = args[0]
     if t.tup is None or len(t.tup) != 2:
         return opaque("vstack")
-    a, b = as_arr_or_none(t.tup[0]), as_arr_or_none(t.tup[1])
+    def as_row(v):
+        x = as_arr_or_none(v)
+        if x is None and (v.num is not None or (v.poly is not None and v.arr is None and v.tup is None)):
+            n = v.get_num()
+            return Arr(2, (1, 1), lambda i, j: n, "num")
+        return None if x is None else arr_promote(x, 2)
+
+    a, b = as_row(t.tup[0]), as_row(t.tup[1])
     if a is None or b is None:
         return opaque("vstack")
-    a, b = arr_promote(a, 2), arr_promote(b, 2)
     ra = a.shape[0]
     r = Arr(2, (z3.simplify(ra + b.shape[0]), a.shape[1]), lambda i, j: _ite(i < ra, a.elem(i, j), b.elem(i - ra, j), a.dtype), a.dtype)
     if a.dtype == "num":
@@ -1020,6 +1026,29 @@ def np_pad(eng, st, args, kw, node):
     fill = cv.get_num() if cv is not None else N(0)
     ra = a.shape[0]
     return Val.of_arr(Arr(2, (z3.simplify(ra + a0), a.shape[1]), lambda i, j: _ite(i < ra, a.elem(i, j), fill, "num"), "num"))
+
+
+def stat_uf(name, v):
+    """np.mean / np.std as uninterpreted functions of (vector contents, length)."""
+    a = as_arr_or_none(v)
+    if a is None:
+        return opaque(name)
+    f = flatten(a) if a.ndim != 1 else a
+    PT = z3.ArraySort(z3.IntSort(), z3.RealSort())
+    u = ctx().uf("stat_" + name, PT, z3.IntSort(), z3.RealSort())
+    return Val.of_num(N(u(f.row(None), f.shape[0])))
+
+
+def np_mean(eng, st, args, kw, node):
+    if _axis(kw, args, 1) is not None:
+        return opaque("mean")
+    return stat_uf("mean", args[0])
+
+
+def np_std(eng, st, args, kw, node):
+    if _axis(kw, args, 1) is not None:
+        return opaque("std")
+    return stat_uf("std", args[0])
 
 
 def np_argmin(eng, st, args, kw, node, is_min=True):
@@ -1220,8 +1249,8 @@ def np_array(eng, st, args, kw, node):
     a = as_arr_or_none(v)
     if a is not None:
         return Val(arr=a)
-    if v.num is not None:
-        n = v.num
+    if v.num is not None or (v.poly is not None and getattr(v, "lazy", None) is not None):
+        n = v.get_num()
         return Val.of_arr(Arr(0, (), lambda: n))
     if v.boo is not None:
         b = v.boo
@@ -1365,7 +1394,7 @@ NPFUNCS = {
     "concatenate": np_concatenate, "argmin": np_argmin, "argmax": np_argmax, "min": np_min, "max": np_max,
     "amin": np_min, "amax": np_max, "sum": np_sum, "unique": np_unique, "sort": np_sort, "argsort": np_argsort,
     "array": np_array, "asarray": np_array, "reshape": np_reshape, "isscalar": np_isscalar, "isreal": np_isreal,
-    "pad": np_pad, "tril": np_tril, "eye": np_eye, "transpose": np_transpose, "mod": np_mod, "spacing": np_spacing, "delete": np_delete, "squeeze": np_squeeze, "argwhere": np_argwhere,
+    "mean": np_mean, "std": np_std, "pad": np_pad, "tril": np_tril, "eye": np_eye, "transpose": np_transpose, "mod": np_mod, "spacing": np_spacing, "delete": np_delete, "squeeze": np_squeeze, "argwhere": np_argwhere,
     "math.ceil": np_ceil, "math.floor": np_floor, "math.sqrt": uf1("sqrt", _sqrt_facts), "math.log": uf1("log", _log_facts),
 }
 
